@@ -98,6 +98,20 @@ func checkLocks(root string) (facts []string, problems []string) {
 			if rt != sp.recvType || rn == "" {
 				continue
 			}
+			// the mutex is only ever released by `defer`: an explicit Unlock (also in a helper that runs under the caller's
+			// lock) splits the method into several critical sections, between which other callers run
+			early := 0
+			ast.Inspect(fd.Body, func(n ast.Node) bool {
+				if x, ok := n.(*ast.ExprStmt); ok && (isMutexCall(x.X, rn, sp.mutex, "Unlock") || isMutexCall(x.X, rn, sp.mutex, "RUnlock")) {
+					early = fset.Position(x.Pos()).Line
+				}
+				return true
+			})
+			if early != 0 {
+				problems = append(problems, fmt.Sprintf("%s.%s (%s): releases %s.%s explicitly at line %d: the method is no longer one critical section",
+					sp.recvType, fd.Name.Name, sp.file, rn, sp.mutex, early))
+				continue
+			}
 			exempt := false
 			for _, e := range sp.exempt {
 				if e == fd.Name.Name {
